@@ -218,7 +218,13 @@ pub fn url_spec(allow_https: bool, allow_userinfo: bool) -> BoxedStrategy<UrlSpe
         prop_oneof![2 => Just(None), 2 => pairs(4).prop_map(Some)],
         prop_oneof![3 => Just(None), 1 => arb_text(6).prop_map(Some)],
         if allow_userinfo {
-            prop_oneof![3 => Just(None), 1 => ("[a-z0-9]{1,6}", prop_oneof![Just(None), "[a-zA-Z0-9]{0,6}".prop_map(Some)]).prop_map(Some)].boxed()
+            prop_oneof![
+                6 => Just(None),
+                2 => ("[a-z0-9]{1,6}", prop_oneof![Just(None), "[a-zA-Z0-9]{0,6}".prop_map(Some)]).prop_map(Some),
+                // password only (empty user name)
+                1 => "[a-zA-Z0-9]{1,6}".prop_map(|p| Some((String::new(), Some(p)))),
+            ]
+            .boxed()
         } else {
             Just(None).boxed()
         },
